@@ -81,13 +81,17 @@ def sensitivity(argv):
                 pid = json.load(fh)["property"]
         work.append((f, pid, 4))
     missed = 0
-    ctx = mp.get_context("fork")
+    results = []
     with cf.ThreadPoolExecutor(max_workers=4) as ex:
         for patch, pid, verdict, info in ex.map(_one_mutant, work):
             label = os.path.basename(patch) if "mutants" in patch else "seeded/" + os.path.basename(os.path.dirname(patch))
-            print(f"{verdict:8s} {pid} {label}  {info[:160]}")
+            print(f"{verdict:8s} {pid} {label}  {info[:160]}", flush=True)
+            results.append({"change": label, "property": pid, "verdict": verdict, "clauses": info})
             if not verdict.startswith("caught"):
                 missed += 1
+    if not pats:
+        with open(os.path.join(verif, "selftest", "sensitivity_last.json"), "w") as fh:
+            json.dump(results, fh, indent=1)
     print(f"sensitivity: {len(work) - missed}/{len(work)} breaking changes caught by the quick check of their property")
     return 0 if missed == 0 else 1
 
